@@ -21,7 +21,7 @@ import random as _random
 from .. import gen_exec, ir, interloper
 from ..core import Stats, Violation, stream, digest_of, canon, find_non_values, SimOptions
 from ..driver import RunResult
-from ..env import Env, EXC_NAMES, make_exception
+from ..env import Env, EXC_NAMES, make_exception, SimBaseError
 from ..refvm import HostFailure
 from ..realrun import run_real, run_ref, compare_outcomes, norm_events, interloper_probe
 
@@ -367,7 +367,8 @@ def gen_adversarial(seed, rng):
         kind = rng.choice(['raise', 'none'])
         f = {'occ': rng.randint(1, 4), 'kind': kind}
         if kind == 'raise':
-            f['exc'] = rng.choice([e for e in EXC_NAMES if e != 'ValueArgsError'])
+            from ..env import FETCH_EXC_NAMES
+            f['exc'] = rng.choice(FETCH_EXC_NAMES)
         ffaults.append(f)
     files = {'a.txt': {'data': True, 'text': 'A', 'stmts': [], 'broken': False},
              'dir/b.txt': {'data': True, 'text': 'B', 'stmts': [], 'broken': False},
@@ -544,10 +545,20 @@ def run_odd_includes(seed, stats):
         url = request['url']
         fetched.append(url)
         if len(fetched) == 1:
-            return f"include {ir.render_string(second)}\ninclude <util.bare>\noddA = 1\n"
-        return 'oddB = 2\n'
+            return f"include {ir.render_string(second)}\ninclude <util.bare>\noddA = 1\n" + lint_bait
+        return 'oddB = 2\n' + (lint_bait if r.random() < 0.5 else '')
 
+    # text the static analysis (run on every included script in debug mode, outside any handler) has something to say
+    # about: a bare return, unused variables and arguments, a function defined twice, code behind a return
+    lint_bait = r.choice(['', '', 'function oddFn(a, b):\n    return\nendfunction\n',
+                          'jumpif (oddA) skip\nreturn\nskip:\noddUnused = 2\n',
+                          'function oddG():\n    x = 1\nendfunction\nfunction oddG():\nendfunction\nreturn 1\noddDead = 3\n',
+                          'function oddH(a, a2...):\n    return a\nendfunction\noddH(1)\n1 + 2\n'])
+    logs = []
     options = {'globals': {}, 'fetchFn': fetch_fn, 'maxStatements': 200}
+    if r.random() < 0.6:
+        options['debug'] = True
+        options['logFn'] = logs.append
     if prefix is not None:
         options['systemPrefix'] = prefix
     if base is not None:
@@ -864,6 +875,8 @@ def run_expressions(plan):
         out.error = ('parse', str(exc))
     except Exception as exc:  # pylint: disable=broad-except
         out.error = ('host', type(exc).__name__, str(exc)[:200])
+    except SimBaseError as exc:
+        out.error = ('host', 'SimBaseError', str(exc)[:200])
     out.events = env.events
     out.fired = env.fired
     out.globals = user_globals_canon(globals_, lambda k, v: k in HOST_NAMES or (k in SCRIPT_FUNCTIONS and v is SCRIPT_FUNCTIONS[k]))
